@@ -524,6 +524,11 @@ func (vr *variableResolver) resolve(ctx *ExecutionContext) (*Value, error) {
 			rv := values[0]
 			if t.NumOut() == 2 {
 				e := values[1].Interface()
+				// A nil pointer in the error position (e. g. a function declared to return
+				// *pongo2.Error) means "no error", like a nil error does.
+				if ev := reflect.ValueOf(e); ev.Kind() == reflect.Ptr && ev.IsNil() {
+					e = nil
+				}
 				if e != nil {
 					err, ok := e.(error)
 					if !ok {
